@@ -1,2 +1,195 @@
-(* placeholder, filled below *)
-From AV Require Import lib.Num model.C12_Base model.C12_Model.
+(* C12 — property theorems only (real-number semantics of the model text, instance RNum).
+   Each is closed by [exact] of a lemma from proofs/C12_ISA.v or proofs/C12_Proofs.v. *)
+From Coq Require Import ZArith Reals List String Bool.
+From AV Require Import lib.Num lib.FloatMath model.C12_Base model.C12_Model proofs.C12_ISA proofs.C12_Proofs.
+Import ListNotations.
+Local Open Scope R_scope.
+
+(* ---- ISA: pressure <-> altitude mutually inverse, both layers, every altitude (in particular 0-25 km) --- *)
+Theorem C12_isa_pressure_altitude_inverse :
+  (forall h : R, @isa_altitude RNum (@isa_pressure RNum h) = h) /\
+  (forall p : R, 0 < p -> @isa_pressure RNum (@isa_altitude RNum p) = p).
+Proof. exact (conj isa_altitude_of_pressure isa_pressure_of_altitude). Qed.
+Print Assumptions C12_isa_pressure_altitude_inverse.
+
+(* every altitude has a positive pressure, so h -> p -> h -> p is always inside the second clause *)
+Theorem C12_isa_pressure_positive : forall h : R, 0 < @isa_pressure RNum h.
+Proof. exact isa_pressure_pos. Qed.
+Print Assumptions C12_isa_pressure_positive.
+
+(* epsilon-delta continuity of both profiles at the tropopause (11 000 m, 216.65 K) *)
+Theorem C12_isa_continuous_at_tropopause :
+  continuity_pt (@isa_temperature RNum) (@c_htrop RNum) /\ continuity_pt (@isa_pressure RNum) (@c_htrop RNum) /\
+  @isa_temperature RNum (@c_htrop RNum) = 21665 / 100.
+Proof. exact (conj isa_temperature_continuous (conj isa_pressure_continuous isa_temperature_at_tropopause)). Qed.
+Print Assumptions C12_isa_continuous_at_tropopause.
+
+(* ---- Fuel Flow Method 2 ---------------------------------------------------------------------------- *)
+Theorem C12_ffm2_linear_in_fuel_flow :
+  forall k f1 f2 P Ta M z PSL TSL n : R,
+    @ffm2 RNum (k * f1) P Ta M z PSL TSL n = k * @ffm2 RNum f1 P Ta M z PSL TSL n /\
+    @ffm2 RNum (f1 + f2) P Ta M z PSL TSL n = @ffm2 RNum f1 P Ta M z PSL TSL n + @ffm2 RNum f2 P Ta M z PSL TSL n.
+Proof. intros. exact (conj (ffm2_scales k f1 P Ta M z PSL TSL n) (ffm2_additive f1 f2 P Ta M z PSL TSL n)). Qed.
+Print Assumptions C12_ffm2_linear_in_fuel_flow.
+
+Theorem C12_ffm2_nonneg :
+  forall ff P Ta M z PSL TSL n : R, 0 <= ff -> 0 < P -> 0 < PSL -> 0 < n -> 0 <= @ffm2 RNum ff P Ta M z PSL TSL n.
+Proof. exact ffm2_nonneg. Qed.
+Print Assumptions C12_ffm2_nonneg.
+Example C12_ffm2_nonneg_nonvacuous : 0 <= (1:R) /\ 0 < (22632:R) /\ 0 < (101325:R) /\ 0 < (2:R).
+Proof. exact ffm2_hyps_satisfiable. Qed.
+
+(* ---- thrust categories: for ALL calibration flows (monotone or not, equal or not) ------------------- *)
+Theorem C12_thrust_cat_exactly_one :
+  forall (ff : R) (cal : tm),
+    (in_idle ff cal /\ ~ in_approach ff cal /\ ~ in_climb ff cal /\ @thrust_cat RNum ff cal = Idle) \/
+    (~ in_idle ff cal /\ in_approach ff cal /\ ~ in_climb ff cal /\ @thrust_cat RNum ff cal = Approach) \/
+    (~ in_idle ff cal /\ ~ in_approach ff cal /\ in_climb ff cal /\ @thrust_cat RNum ff cal = Climb).
+Proof. exact thrust_cat_exactly_one. Qed.
+Print Assumptions C12_thrust_cat_exactly_one.
+
+Theorem C12_thrust_cat_monotone :
+  forall (f1 f2 : R) (cal : tm), f1 <= f2 ->
+    (mode_rank (@thrust_cat RNum f1 cal) <= mode_rank (@thrust_cat RNum f2 cal))%Z.
+Proof. exact thrust_cat_monotone. Qed.
+Print Assumptions C12_thrust_cat_monotone.
+Example C12_thrust_cat_monotone_nonvacuous :
+  @thrust_cat RNum (1/10) (2/10, 6/10, 15/10, 2) = Idle /\ @thrust_cat RNum 1 (2/10, 6/10, 15/10, 2) = Approach /\
+  @thrust_cat RNum 3 (2/10, 6/10, 15/10, 2) = Climb /\
+  (* non-monotone calibration flows: the approach band is empty, the order is still idle -> climb *)
+  @thrust_cat RNum (1/2) (1, 1, 1/10, 2) = Idle /\ @thrust_cat RNum (3/2) (1, 1, 1/10, 2) = Climb.
+Proof. exact thrust_cat_examples. Qed.
+
+(* ---- BFFM2 NOx --------------------------------------------------------------------------------------- *)
+(* multiplying the four certification indices by k > 0 multiplies NOx, NO, NO2, HONO by k and leaves the
+   speciation fractions alone; every fuel flow (incl. <= 0, clamped), every calibration flow set (incl. equal
+   and non-monotone; four equal flows use the flat line), every ambient state *)
+Theorem C12_nox_scales_with_cert_EI :
+  forall (k ff : R) (ei cal : tm) (Ta P : R), 0 < k -> tpos ei ->
+    @bffm2_nox RNum ff (tscale k ei) cal Ta P =
+    let '(nox, no, no2, hono, pno, pno2, phono) := @bffm2_nox RNum ff ei cal Ta P in
+    (k * nox, k * no, k * no2, k * hono, pno, pno2, phono).
+Proof. exact bffm2_nox_scales. Qed.
+Print Assumptions C12_nox_scales_with_cert_EI.
+Example C12_nox_scales_nonvacuous : 0 < (2:R) /\ tpos (30, 25, 20, 18).
+Proof. exact nox_hyps_satisfiable. Qed.
+
+Theorem C12_nox_nonneg_and_speciated :
+  forall (ff : R) (ei cal : tm) (Ta P : R),
+    let '(nox, no, no2, hono, pno, pno2, phono) := @bffm2_nox RNum ff ei cal Ta P in
+    0 < nox /\ 0 < no /\ 0 < no2 /\ 0 < hono /\ no + no2 + hono = nox /\ pno + pno2 + phono = 1.
+Proof. exact bffm2_nox_positive. Qed.
+Print Assumptions C12_nox_nonneg_and_speciated.
+
+(* the code before fix FC12a (numpy.polyfit's minimum-norm line for four equal calibration flows) is not
+   equivariant under a shift of the log-indices, i.e. not linear in the certification indices *)
+Theorem C12_nox_all_equal_flows_before_fix_refuted :
+  exists c xe (xc yc : tm),
+    @nox_line_log_v RNum DegMinNorm xe xc (tshift c yc) <> @nox_line_log_v RNum DegMinNorm xe xc yc + c.
+Proof. exact nox_line_log_minnorm_not_shift_equivariant. Qed.
+Print Assumptions C12_nox_all_equal_flows_before_fix_refuted.
+
+(* ---- BFFM2 HC / CO ------------------------------------------------------------------------------------ *)
+Theorem C12_hcco_scales_with_cert_EI :
+  forall (k ff : R) (ei cal : tm) (Ta P : R), 0 < k -> tpos ei ->
+    @hcco RNum ff (tscale k ei) cal Ta P = k * @hcco RNum ff ei cal Ta P.
+Proof. exact hcco_scales. Qed.
+Print Assumptions C12_hcco_scales_with_cert_EI.
+
+Theorem C12_hcco_nonneg :
+  forall (ff : R) (ei cal : tm) (Ta P : R),
+    0 <= @hcco RNum ff ei cal Ta P /\ (0 < ff -> 0 < @hcco RNum ff ei cal Ta P).
+Proof. intros. exact (conj (hcco_nonneg ff ei cal Ta P) (hcco_positive_flow_positive ff ei cal Ta P)). Qed.
+Print Assumptions C12_hcco_nonneg.
+
+(* the documented SAGE clamping rules, for all real values of the log10 certification data *)
+Theorem C12_hcco_clamp_rules :
+  forall (lEI lff : tm),
+    let '(s, h, x) := @hcco_fit_raw RNum lEI lff in
+    let '(eI, eA, eC, eT) := lEI in let '(fI, fA, fC, fT) := lff in
+    (fC < x -> @hcco_fit_log RNum lEI lff = (s, fI, eI, h, fC)) /\
+    (x <= fC -> x < fA -> s < 0 -> @hcco_fit_log RNum lEI lff = (s, fI, eI, eA, fA)) /\
+    (x <= fC -> 0 <= s -> @hcco_fit_log RNum lEI lff = (0, 0, h, h, fA)) /\
+    (fA <= x <= fC -> s < 0 -> @hcco_fit_log RNum lEI lff = (s, fI, eI, h, x)) /\
+    (@isclose0 RNum s = false -> s * (x - fI) + eI = h).
+Proof. intros lEI lff.
+  pose proof (hcco_rule_a lEI lff) as A. pose proof (hcco_rule_b lEI lff) as B.
+  pose proof (hcco_rule_c lEI lff) as C. pose proof (hcco_rule_none lEI lff) as D.
+  pose proof (hcco_segments_meet lEI lff) as E.
+  destruct (@hcco_fit_raw RNum lEI lff) as [[s h] x].
+  destruct lEI as [[[eI eA] eC] eT], lff as [[[fI fA] fC] fT].
+  exact (conj A (conj B (conj C (conj D E)))). Qed.
+Print Assumptions C12_hcco_clamp_rules.
+Example C12_hcco_clamp_rules_nonvacuous :
+  @hcco_rule_of RNum (2, 1, -1, -1) ex_lff = RuleClampHigh /\ @hcco_rule_of RNum (2, 1, 3/2, 3/2) ex_lff = RuleNegSlopeLow /\
+  @hcco_rule_of RNum (1, 2, 0, 0) ex_lff = RuleFlat /\ @hcco_rule_of RNum (2, 1, 0, 0) ex_lff = RuleNone /\
+  @hcco_rule_of RNum (2, 1, 0, 0) (0, 0, 1, 2) = RuleFlat.
+Proof. exact (conj hcco_rule_a_reached (conj hcco_rule_b_reached (conj hcco_rule_c_reached
+               (conj hcco_rule_none_reached hcco_equal_flows_flat)))). Qed.
+
+Theorem C12_hcco_flat_and_low_thrust_rules :
+  (forall h fA ff : R, 0 < ff -> @hcco_eval RNum (0, 0, h, h, fA) ff = @pow10 RNum h) /\
+  (forall (ff : R) (ei cal : tm) (Ta P : R), ff < @tget RNum cal Idle ->
+     @hcco RNum ff ei cal Ta P =
+     @hcco_sl RNum ff ei cal * (1 + 52 * (@tget RNum cal Idle - ff)) * @hcco_cruise RNum Ta P) /\
+  (forall (ff : R) (ei cal : tm) (Ta P : R), @tget RNum cal Idle <= ff ->
+     @hcco RNum ff ei cal Ta P = @hcco_sl RNum ff ei cal * @hcco_cruise RNum Ta P).
+Proof. exact (conj hcco_flat_everywhere (conj hcco_low_thrust hcco_not_low_thrust)). Qed.
+Print Assumptions C12_hcco_flat_and_low_thrust_rules.
+
+(* ---- SOx ------------------------------------------------------------------------------------------------ *)
+Theorem C12_sox_sulfur_conserved :
+  forall fsc eps : R,
+    let '(sx, so2, so4) := @sox RNum fsc eps in
+    so2 * @mw_S RNum / @mw_SO2 RNum + so4 * @mw_S RNum / @mw_SO4 RNum = fsc / 1000 /\ sx = so2 + so4.
+Proof. exact sox_conserved. Qed.
+Print Assumptions C12_sox_sulfur_conserved.
+
+Theorem C12_sox_nonneg :
+  forall fsc eps : R, 0 <= fsc -> 0 <= eps <= 1 ->
+    let '(sx, so2, so4) := @sox RNum fsc eps in 0 <= sx /\ 0 <= so2 /\ 0 <= so4.
+Proof. exact sox_nonneg. Qed.
+Print Assumptions C12_sox_nonneg.
+Example C12_sox_nonneg_nonvacuous : 0 <= (600:R) /\ 0 <= (1/50:R) <= 1.
+Proof. exact sox_hyps_satisfiable. Qed.
+
+(* ---- particulate matter ----------------------------------------------------------------------------------- *)
+Theorem C12_pm_scales_with_cert_EI :
+  (forall k t hc : R, @pmvol_foa3 RNum t (k * hc) = (k * fst (@pmvol_foa3 RNum t hc), k * snd (@pmvol_foa3 RNum t hc))) /\
+  (forall (k : R) (v : tm) (vmax : R) (kind : maxkind) (F : R),
+      @ninterp RNum F (@meem_grid RNum (tscale k v) (k * vmax) kind) = k * @ninterp RNum F (@meem_grid RNum v vmax kind)) /\
+  (forall k ref P3 P3ref : R, @meem_adjust RNum (k * ref) P3 P3ref = k * @meem_adjust RNum ref P3 P3ref).
+Proof. split; [exact pmvol_foa3_scales | split; [ | exact meem_adjust_scales]].
+  intros. rewrite meem_grid_scales. apply ninterp_scales. Qed.
+Print Assumptions C12_pm_scales_with_cert_EI.
+
+Theorem C12_pm_nonneg :
+  (forall t hc : R, 0 <= hc -> 0 <= fst (@pmvol_foa3 RNum t hc) /\ 0 <= snd (@pmvol_foa3 RNum t hc)) /\
+  (forall m, 0 < fst (@pmvol_fuelflow RNum m) /\ 0 < snd (@pmvol_fuelflow RNum m)) /\
+  (forall (sn : R) m (bpr : R) et, 0 <= bpr -> 0 <= @scope11_mode RNum sn m bpr et).
+Proof. exact (conj pmvol_foa3_nonneg (conj pmvol_fuelflow_positive scope11_mode_nonneg)). Qed.
+Print Assumptions C12_pm_nonneg.
+
+(* MEEM, partial: proved are (i) the reference indices interpolated from non-negative mode indices are
+   non-negative, (ii) the altitude adjustment is positive and the number index equals reference number index x
+   the same positive factor, (iii) the compressor pressure ratio is positive for every point that is not a
+   climbing point below 3000 m.  NOT proved: the composed statement about meem_point / meem over whole
+   trajectories (finiteness of the thermodynamic chain, the reconstruction branches) — checked numerically. *)
+Theorem C12_meem_nonneg_partial :
+  (forall (b F : R) (v : tm) (vmax : R) (kind : maxkind),
+      (let '(a0, a1, a2, a3) := v in b <= a0 /\ b <= a1 /\ b <= a2 /\ b <= a3) -> b <= vmax ->
+      b <= @ninterp RNum F (@meem_grid RNum v vmax kind)) /\
+  (forall ref P3 P3ref : R, 0 < ref -> 0 < @meem_adjust RNum ref P3 P3ref) /\
+  (forall ref_num ref_mass P3 P3ref : R, 0 < ref_mass ->
+      ref_num * @meem_adjust RNum ref_mass P3 P3ref / (@q RNum 1 1000 * ref_mass) =
+      ref_num * (@npow RNum (P3 / P3ref) (@q RNum 27 20) * @npow RNum (@q RNum 11 10) (@q RNum 5 2))) /\
+  (forall pr hmax hp h : R, 1 < pr -> (h <= hp \/ 3000 <= h) -> h <= hmax -> 0 < @meem_p3_ratio RNum pr hmax hp h).
+Proof. exact (conj meem_reference_ge (conj meem_adjust_pos (conj meem_number_index meem_p3_ratio_pos))). Qed.
+Print Assumptions C12_meem_nonneg_partial.
+
+(* finding FC12b: for a climbing point below 3000 m of a trajectory that tops out low the modelled combustor
+   pressure is negative (the implementation then returns NaN) *)
+Theorem C12_meem_low_climb_refuted :
+  exists pr hmax hp h : R, 1 < pr /\ 0 <= hp < h /\ h <= hmax /\ @meem_p3_ratio RNum pr hmax hp h < 0.
+Proof. exact meem_low_climb_negative_pressure. Qed.
+Print Assumptions C12_meem_low_climb_refuted.
